@@ -73,3 +73,18 @@ Proof.
   intros st' v H. assert (Hn : nocrash ex_inp_xh) by (intros C0; discriminate).
   exact (proj1 (fresh_its_route ex_inp_xh _ _ _ eq_refl Hn st' v H)).
 Qed.
+
+(** the capstone (proof/C03_Capstone.v): hypotheses hold on the two example reactors, and the conclusion says something *)
+From SK Require Import proof.C03_Proof proof.C03_ReactorSpec proof.C03_Capstone.
+Example ex_capstone_hyps : hyps_okb (ex_inp false) = true /\ hyps_okb ex_inp_xh = true /\
+                           spec_its (ex_inp false) = Some [ex_T_h'] /\ balancedb ex_rc_h = true.
+Proof. vm_compute. repeat split. Qed.
+Example ex_capstone : instance_of ex_host_h ex_rc_h ex_T_h'.
+Proof.
+  apply (its_list_sound (ex_inp false) ex_rc_h _ _ [ex_T_h'] eq_refl); try reflexivity. left. reflexivity.
+Qed.
+Example ex_capstone_reads : forall g, In g [ex_T_h'] -> instance_of ex_host_h ex_rc_h g.
+Proof.
+  apply (reads_return_instances (ex_inp false) ex_rc_h _ _ eq_refl eq_refl eq_refl eq_refl (proj1 ex_nocrash) [Osmiles; Oits; Oits]).
+  vm_compute. right. left. reflexivity.
+Qed.
